@@ -46,6 +46,46 @@ func main() {
 		}
 		return
 	}
+	if *prop == "all" && *noEvidence {
+		// one load, every property in turn (used by the refactoring / mutant sweeps); prints "PROP <id> rc=<n>"
+		absRepo, _ := filepath.Abs(*repo)
+		p, err := Load(LoadConfig{Repo: absRepo, Tags: *tags, GOOS: *goos, GOARCH: *goarch})
+		if err != nil {
+			fmt.Fprintf(os.Stderr, "hlcheck: infrastructure failure: %v\n", err)
+			os.Exit(2)
+		}
+		known, err := loadKnown(filepath.Join(*verif, "KNOWN_FINDINGS.json"))
+		if err != nil {
+			fmt.Fprintf(os.Stderr, "hlcheck: %v\n", err)
+			os.Exit(2)
+		}
+		var ids []string
+		for id := range specs {
+			ids = append(ids, id)
+		}
+		sort.Strings(ids)
+		worst := 0
+		for _, id := range ids {
+			c := NewCtx(p, id, *tier)
+			func() {
+				defer func() {
+					if r := recover(); r != nil {
+						c.undecided("PANIC", "", fmt.Sprint(r), 0, "the checker panicked; the property could not be decided")
+					}
+				}()
+				for _, r := range specs[id].Rules {
+					r(c)
+				}
+			}()
+			fmt.Printf("BEGIN %s\n", id)
+			rc := finishNoEvidence(c, known)
+			fmt.Printf("PROP %s rc=%d\n", id, rc)
+			if rc > worst {
+				worst = rc
+			}
+		}
+		os.Exit(worst)
+	}
 	spec, ok := specs[*prop]
 	if !ok {
 		fmt.Fprintf(os.Stderr, "unknown property %q\n", *prop)
